@@ -58,7 +58,7 @@ def gen_plan(rng, index, tier):
         uid += 1
         r = rng.random()
         if r < 0.16 and depth < 4:
-            steps.append({"op": "enter", "level": rng.choice(["reactor", "core", "assembly", "block", "component"]), "idx": rng.randrange(1000), "keep": sorted(rng.sample(KEEP_CANDIDATES, rng.choice([0, 0, 1, 2, 3]))), "coldcache": rng.random() < 0.5, "pendingHeat": rng.random() < 0.25, "keepLevel": rng.choice([None, None, "block", "assembly", "core", "component"])})
+            steps.append({"op": "enter", "level": rng.choice(["reactor", "core", "assembly", "block", "component"]), "idx": rng.randrange(1000), "keep": sorted(rng.sample(KEEP_CANDIDATES, rng.choice([0, 0, 1, 2, 3]))), "coldcache": rng.random() < 0.5, "pendingHeat": rng.random() < 0.25, "keepLevel": rng.choice([None, None, "block", "assembly", "core", "component"]), "keepForm": rng.choice(["set", "set", "list", "iter"])})
             depth += 1
         elif r < 0.19 and depth < 3:
             # two nested scopes on one object that keep the same parameter; it is assigned in the
@@ -169,6 +169,11 @@ def obj_state(o):
     if o.spatialGrid is not None:
         red = o.spatialGrid.reduce()
         st["grid"] = [kernel.canon(red.unitSteps), kernel.canon(red.bounds), kernel.canon(red.offset)]
+        try:
+            # what a user asks the grid (a stated pitch must follow the unit steps)
+            st["grid.pitch"] = kernel.canon(o.spatialGrid.pitch)
+        except Exception as e:  # noqa: BLE001 - a grid without a pitch (e.g. a zero-pitch Cartesian grid)
+            st["grid.pitch"] = f"<{type(e).__name__}>"
     return st
 
 
@@ -354,6 +359,10 @@ class Runner:
                 r.core.spatialGrid.changePitch(st["pitch"], st["pitch"] + 1.5)
             self.edits += 1
             self.probe("pitch_change_depth_%d" % min(depth, 3))
+            if st.get("ask", True):
+                # the changed pitch is used inside the scope (pin pitch, assembly pitch)
+                r.core.spatialGrid.pitch
+                r.core.getAssemblyPitch()
         elif op == "sfppitch" and not self.readonly:
             sfp = r.excore.get("sfp")
             if sfp is not None and sfp.spatialGrid is not None:
@@ -586,7 +595,14 @@ class Runner:
         nxt = i + 1
         inner = None
         try:
-            with o.retainState(keep):
+            form = st.get("keepForm", "set")
+            if form == "list":
+                keep_arg = sorted(keep, key=lambda pd: (pd.name, pd.collectionType.__name__))
+            elif form == "iter":
+                keep_arg = (pd for pd in sorted(keep, key=lambda pd: (pd.name, pd.collectionType.__name__)))  # any iterable
+            else:
+                keep_arg = keep
+            with o.retainState(keep_arg):
                 nxt, how = self.run(i + 1, depth + 1)
                 inner = snapshot(o)
                 if how == "exit_exc":
